@@ -78,3 +78,12 @@ classdef("UniformMutator", bases=["Mutator"], fields={"perturbation": "Real"})
 classdef("NonUniformMutation", bases=["Mutator"], fields={"perturbation": "Real", "max_iterations": "Int"})
 classdef("Crossover", bases=["Operator"], fields={"parameters": "List[Ref[Parameter]]", "probability": "Real"})
 classdef("SimulatedBinaryCrossover", bases=["Crossover"], fields={"distribution_index": "Real"})
+for _c in ("RandomGenerator", "UniformGenerator", "LHSGenerator", "HaltonGenerator"):
+    classdef(_c, bases=["Generator"], fields={})
+# ---- sqlite model (C10/C11): a connection counts the statements executed since its last commit (ghost) ------------------
+classdef("SqlConn", fields={"ghost_pending": "Int", "ghost_commits": "Int", "ghost_stmts": "Int", "ghost_last_sql": "Str",
+                            "ghost_last_id": "Int", "ghost_last_doc": "Ref[IndDoc]", "ghost_ids": "List[Int]"})
+classdef("SqlCursor", fields={"conn": "Ref[SqlConn]"})
+classdef("IndDoc", fields={"ghost_of": "Ref[Individual]", "ghost_costs": "List[Real]", "ghost_vector": "List[Real]"})
+classdef("SqliteDataStore", bases=["DataStore"],
+         fields={"problem": "Ref[Problem]", "mode": "Str", "thread_safe": "Bool", "database_name": "Str"})
